@@ -465,9 +465,11 @@ def bounded(sess: Session):
     from bounded import lmf_faults as F
     out = F.sweep()
     bad = [r for r in out if r[4]]
-    k6 = [r for r in bad if r[3].startswith('K6:')]
-    k25 = [r for r in bad if r[3].startswith('K25:')]
-    new = [r for r in bad if not r[3].startswith(('K6:', 'K25:'))]
+    # a recorded finding covers its own symptom only: K6 = the regex pre-scan disagrees with / fails on a valid document
+    # that load() accepts; K25 = add() returns normally (database unchanged) although load() rejects the document
+    k6 = [r for r in bad if r[3].startswith('K6:') and r[4].startswith('SCAN:')]
+    k25 = [r for r in bad if r[3].startswith('K25:') and r[4].strip() == 'add() accepted the invalid document']
+    new = [r for r in bad if r not in k6 and r not in k25]
     for version, doc, kind, label, problem, text in new[:5]:
         sess.violation_direct(f'wn.lmf.load/scan_lexicons/add:bounded:{version}:{doc}:{kind}:{label}', problem[:1200],
                               {'kind': 'lmf-fault', 'version': version, 'document': text}, reproduced=True,
